@@ -47,7 +47,7 @@ func LoadWorld() (*World, error) {
 			return nil, fmt.Errorf("package %s: %v", p.PkgPath, e)
 		}
 	}
-	prog, spkgs := ssautil.Packages(pkgs, ssa.InstantiateGenerics)
+	prog, spkgs := ssautil.Packages(pkgs, ssa.InstantiateGenerics|ssa.GlobalDebug)
 	prog.Build()
 	w := &World{prog: prog, pkgs: map[string]*ssa.Package{}, ppkgs: pkgs, contracts: map[string]*Contract{}, fns: map[string]*ssa.Function{}}
 	for _, sp := range spkgs {
@@ -112,20 +112,43 @@ func discharge(obls []*Obligation, timeoutMs int) {
 			o.Res = SolverResult{Status: "unsat", Solver: "propagation"}
 			continue
 		}
-		asserts := append(append([]*Term{}, as...), Not(extGoal(goal, true, &ctr)))
-		asserts = append(asserts, canonFacts(asserts)...)
+		ng := Not(extGoal(goal, true, &ctr))
+		full := append(append([]*Term{}, as...), ng)
+		full = append(full, canonFacts(full)...)
+		// first try with the assumptions in the goal's cone of influence only (dropping assumptions is sound);
+		// identical sliced queries (paths that differ in irrelevant branches) are solved once
+		sliced := append(sliceAssumptions(as, ng), ng)
+		sliced = append(sliced, canonFacts(sliced)...)
+		asserts := sliced
 		var modelTerms []*Term
 		for _, in := range o.Inputs {
 			if in.T.Sort == SBool || bvWidth(in.T.Sort) > 0 {
 				modelTerms = append(modelTerms, in.T)
 			}
 		}
-		prelude := buildPrelude(usedSymbols(append(append([]*Term{}, asserts...), modelTerms...)))
+		used := usedSymbols(append(append([]*Term{}, asserts...), modelTerms...))
+		for _, w := range o.Without {
+			delete(used, w)
+		}
+		prelude := buildPrelude(used)
 		text := Script(asserts, prelude, modelTerms)
+		fullText := ""
+		if len(full) != len(sliced) {
+			used2 := usedSymbols(append(append([]*Term{}, full...), modelTerms...))
+			for _, w := range o.Without {
+				delete(used2, w)
+			}
+			fullText = Script(full, buildPrelude(used2), modelTerms)
+		}
 		wg.Add(1)
 		go func() {
 			defer wg.Done()
-			o.Res = Solve(text, timeoutMs)
+			o.Res = solveCached(text, timeoutMs)
+			if o.Res.Status != "unsat" && fullText != "" {
+				// the slice may have dropped a contradiction that makes the path infeasible: retry unsliced
+				o.Res = solveCached(fullText, timeoutMs)
+				text = fullText
+			}
 			if o.Res.Status == "unknown" || o.Res.Status == "error" {
 				retryMu.Lock()
 				retry = append(retry, retryItem{o, text})
@@ -297,3 +320,93 @@ func cmdVerify(args []string) int {
 	}
 	return 0
 }
+
+var (
+	solveCache   = map[string]*cacheEntry{}
+	solveCacheMu sync.Mutex
+)
+
+type cacheEntry struct {
+	once sync.Once
+	res  SolverResult
+}
+
+func solveCached(text string, timeoutMs int) SolverResult {
+	solveCacheMu.Lock()
+	e := solveCache[text]
+	if e == nil {
+		e = &cacheEntry{}
+		solveCache[text] = e
+	}
+	solveCacheMu.Unlock()
+	e.once.Do(func() { e.res = Solve(text, timeoutMs) })
+	return e.res
+}
+
+// sliceAssumptions keeps the assumptions connected to the goal through shared free symbols.
+func sliceAssumptions(as []*Term, goal *Term) []*Term {
+	symsOf := func(t *Term) map[string]bool {
+		out := map[string]bool{}
+		seen := map[*Term]bool{}
+		var rec func(t *Term)
+		rec = func(t *Term) {
+			if seen[t] {
+				return
+			}
+			seen[t] = true
+			switch t.Op {
+			case "var":
+				if !strings.HasPrefix(t.Name, "q$") {
+					out["v:"+t.Name] = true
+				}
+			case "app":
+				if !preludeSym[t.Name] {
+					out["f:"+t.Name] = true
+				}
+			}
+			for _, a := range t.Args {
+				rec(a)
+			}
+		}
+		rec(t)
+		return out
+	}
+	cur := symsOf(goal)
+	syms := make([]map[string]bool, len(as))
+	for i, a := range as {
+		syms[i] = symsOf(a)
+	}
+	keep := make([]bool, len(as))
+	for changed := true; changed; {
+		changed = false
+		for i := range as {
+			if keep[i] {
+				continue
+			}
+			hit := len(syms[i]) == 0 // closed facts (about constants only) are kept
+			for s := range syms[i] {
+				if cur[s] {
+					hit = true
+					break
+				}
+			}
+			if hit {
+				keep[i] = true
+				changed = true
+				for s := range syms[i] {
+					cur[s] = true
+				}
+			}
+		}
+	}
+	var out []*Term
+	for i, a := range as {
+		if keep[i] {
+			out = append(out, a)
+		}
+	}
+	return out
+}
+
+// preludeSym: interpreted-by-axiom helper functions that would connect everything to everything.
+var preludeSym = map[string]bool{"canon": true, "cat": true, "snap": true, "trig32": true, "trig64": true, "memcpy": true}
